@@ -145,6 +145,34 @@ fn check(ast: &Ast, vars: &[(&'static str, RV)], ci: usize, st: &mut Stats) {
         st.violation(mk("clone-not-independent", format!("original stays {:?}", before), format!("{:?}", observe_vars(&c))));
         return;
     }
+    // the clone stands for "a context in the same state": a second context constructed the same way must
+    // give the same result and end in the same state as the clone did (a `Clone` that drops or shares part
+    // of the state would otherwise define the expectation), and the builtin switch is part of the state
+    {
+        let mut c2f = real_context(vars, &log);
+        let mtf = guarded(|| tree.eval_with_context_mut(&mut c2f));
+        st.evaluations += 1;
+        match mtf {
+            Ok(mtf) => {
+                if res_key(&mtf) != res_key(&mt) || observe_vars(&c2f) != observe_vars(&c2) {
+                    st.violation(mk(
+                        "clone-differs-from-equally-constructed-context",
+                        format!("{} leaving {:?} (context constructed the same way)", res_key(&mtf), observe_vars(&c2f)),
+                        format!("{} leaving {:?} (clone)", res_key(&mt), observe_vars(&c2)),
+                    ));
+                    return;
+                }
+            },
+            Err(p) => {
+                st.violation(mk("panic", "Ok or Err".into(), format!("panic at {}: {}", p.location, p.message)));
+                return;
+            },
+        }
+        if c.are_builtin_functions_disabled() || c2.are_builtin_functions_disabled() || c2f.are_builtin_functions_disabled() {
+            st.violation(mk("builtin-switch-changed", "builtin functions stay enabled in the original, the clone and the twin".into(), format!("disabled: original {}, clone {}, twin {}", c.are_builtin_functions_disabled(), c2.are_builtin_functions_disabled(), c2f.are_builtin_functions_disabled())));
+            return;
+        }
+    }
     if !has_asg {
         st.count("assignment-free-programs");
         st.count("nontrivial-distinct");
@@ -467,6 +495,87 @@ fn whole_inputs_and_reentrant_functions() -> Stats {
     st
 }
 
+/// Context configurations beyond variables: the builtin switch (on / off), a user function shadowing a
+/// builtin, x bound or not — each constructed twice the same way and also cloned, against programs that
+/// call builtins, user functions and unknown functions. The shared form on the original must equal the
+/// mutable form on the twin and on the clone; every context ends with the variables and the switch it
+/// started with (the programs are assignment-free); with the switch off an unshadowed builtin is unknown.
+fn configured_contexts() -> Stats {
+    use evalexpr::{ContextWithMutableFunctions, Function, HashMapContext, Value};
+    let mut st = Stats::new();
+    let sources = [
+        "max(x, 7)", "min(1, 2)", "len(\"ab\")", "str::from(x)", "math::sqrt(4)", "if(true, 1, 2)", "typeof(1)", "x + 1", "floor(2.5)",
+        "contains((1, 2), 1)", "bitand(3, 1)", "max(x, 7) + len(\"a\")", "g(1)", "u(max(1, 2))", "max 1", "(max(1, 2), u(3))", "1 + 1", "str::to_uppercase(\"a\")",
+        "math::abs(-1)", "round(1.5)", "max(u(1), u(2))", "u(1); max(1, 2)", "max(1, 2); u(1)", "1 / 0", "max()", "max(true, 1)",
+    ];
+    for disabled in [false, true] {
+        for shadow in [false, true] {
+            for bound in [false, true] {
+                let build = || -> HCtx {
+                    let mut c: HCtx = HashMapContext::new();
+                    if bound {
+                        c.set_value("x".into(), Value::Int(3)).unwrap();
+                    }
+                    c.set_function("u".into(), Function::new(|a| Ok(a.clone()))).unwrap();
+                    if shadow {
+                        c.set_function("max".into(), Function::new(|_| Ok(Value::Int(-5)))).unwrap();
+                    }
+                    c.set_builtin_functions_disabled(disabled).unwrap();
+                    c
+                };
+                let cname = format!("builtins {}, max {}, x {}", if disabled { "disabled" } else { "enabled" }, if shadow { "shadowed by a user function" } else { "not shadowed" }, if bound { "= 3" } else { "unbound" });
+                for src in sources {
+                    let c = build();
+                    let mut twin = build();
+                    let mut cl = c.clone();
+                    let mut cl2 = c.clone().clone();
+                    let before = observe_vars(&c);
+                    let fmt = |r: Result<ERes, PanicInfo>| r.map(|r| res_key(&r)).unwrap_or_else(|p| format!("panic at {}: {}", p.location, p.message));
+                    let a = fmt(guarded(|| evalexpr::eval_with_context(src, &c)));
+                    let b = fmt(guarded(|| evalexpr::eval_with_context_mut(src, &mut twin)));
+                    let d = fmt(guarded(|| evalexpr::eval_with_context_mut(src, &mut cl)));
+                    let e = fmt(guarded(|| evalexpr::eval_with_context_mut(src, &mut cl2)));
+                    let t = fmt(guarded(|| build_operator_tree::<DefaultNumericTypes>(src).and_then(|t| t.eval_with_context(&c))));
+                    st.evaluations += 5;
+                    st.count("configured-context-cases");
+                    let mut bad: Option<(String, String)> = None;
+                    if a != b || a != d || a != e || a != t {
+                        bad = Some((format!("eval_with_context = {}", a), format!("eval_with_context_mut on a context constructed the same way = {}, on a clone = {}, on a clone of a clone = {}, tree level shared = {}", b, d, e, t)));
+                    }
+                    for (n, x) in [("original", &c), ("twin", &twin), ("clone", &cl), ("clone of clone", &cl2)] {
+                        if bad.is_none() && (x.are_builtin_functions_disabled() != disabled || observe_vars(x) != before) {
+                            bad = Some((format!("builtins disabled = {}, variables {:?}", disabled, before), format!("{}: builtins disabled = {}, variables {:?}", n, x.are_builtin_functions_disabled(), observe_vars(x))));
+                        }
+                    }
+                    // with the switch off, an unshadowed builtin called first is an unknown function
+                    if bad.is_none() && disabled && ["min(1, 2)", "len(\"ab\")", "math::sqrt(4)", "if(true, 1, 2)", "typeof(1)", "floor(2.5)", "bitand(3, 1)", "round(1.5)", "math::abs(-1)"].contains(&src) {
+                        if !a.starts_with("Err(FunctionIdentifierNotFound") {
+                            bad = Some(("Err(FunctionIdentifierNotFound(..)) with builtin functions disabled".into(), a.clone()));
+                        } else {
+                            st.count("configured-context/disabled-builtin-unknown");
+                        }
+                    }
+                    if a.starts_with("Ok") {
+                        st.count("configured-context/ok");
+                    }
+                    if let Some((expected, actual)) = bad {
+                        st.violation(Violation {
+                            property: ID,
+                            kind: "configured-context".into(),
+                            input: json!({"source": src, "context": cname}),
+                            expected,
+                            actual,
+                            test: test_wrap("c11_replay", &format!("    // context: {}; user function u = identity\n    // compare eval_with_context({:?}, &c) with eval_with_context_mut({:?}, &mut c.clone()) and with a second context constructed the same way\n", cname, src, src)),
+                        });
+                        return st;
+                    }
+                }
+            }
+        }
+    }
+    st
+}
+
 pub fn run(cfg: &Cfg) -> Report {
     let n = cfg.tier.pick(2, 3);
     let counts = progs::counts(3);
@@ -488,6 +597,7 @@ pub fn run(cfg: &Cfg) -> Report {
     }
     stats.merge(odd_targets());
     stats.merge(whole_inputs_and_reentrant_functions());
+    stats.merge(configured_contexts());
     // scaling families: long programs with one assignment (or none) at position k
     {
         use super::scale::{int, sizes};
@@ -527,11 +637,13 @@ pub fn run(cfg: &Cfg) -> Report {
         ("ContextNotMutable outcomes and earlier errors were both seen".to_string(),
             stats.get("immutable/context-not-mutable") > 0 && stats.get("immutable/other-error") > 0 && stats.get("immutable/ok") > 0),
         ("the no-storage context rejected assignments".to_string(), stats.get("no-storage/context-not-mutable") > 0),
+        ("the Debug renderings used to compare typed results tell all pool values apart".to_string(), debug_renderings_tell_values_apart()),
+        ("configured contexts: builtins were called with the switch on and refused with it off".to_string(), stats.get("configured-context/ok") > 0 && stats.get("configured-context/disabled-builtin-unknown") > 0),
     ];
     Report {
         property: ID,
         level: "model_checking",
-        rule: format!("every program with <= {n} operator nodes of the C08 alphabet (assignments and op-assigns at every position, recording and failing calls, failing atoms) x 3 initial HashMapContext populations; per (program, context): eval_with_context on the tree and on the string (shared context), eval_with_context_mut on a clone, eval_with_context_mut on a harness context with the default set_value, and for the empty population EmptyContext and EmptyContextWithBuiltinFunctions; plus 11 x 9 x 6 sources `<lhs> <assignment operator> <rhs>` whose left operand is not a bare identifier (literal, group, sum, tuple, call, failing expression), evaluated on a shared context; plus scaling families (chains and tuples of n elements with an assignment at every position, n in 1..20 and up to 129 / 1..40 and up to 400); oracle: reference interpreter in immutable / mutable / no-storage mode, direct differential between the two forms for assignment-free programs, context observation before/after. States = (program, context) pairs, transitions = evaluations. Non-trivial = assignment-free programs (differential) and programs ending in ContextNotMutable; each pair is enumerated once"),
+        rule: format!("every program with <= {n} operator nodes of the C08 alphabet (assignments and op-assigns at every position, recording and failing calls, failing atoms) x 3 initial HashMapContext populations; per (program, context): eval_with_context on the tree and on the string (shared context), eval_with_context_mut on a clone, eval_with_context_mut on a harness context with the default set_value, and for the empty population EmptyContext and EmptyContextWithBuiltinFunctions; plus 11 x 9 x 6 sources `<lhs> <assignment operator> <rhs>` whose left operand is not a bare identifier (literal, group, sum, tuple, call, failing expression), evaluated on a shared context; plus 8 context configurations (builtin switch on / off x a user function shadowing `max` or not x `x` bound or not) x 26 assignment-free sources calling builtins, user functions and unknown functions: shared form on the original = mutable form on a context constructed the same way = on a clone = on a clone of a clone, switch and variables unchanged everywhere, unshadowed builtins unknown with the switch off; in the program enumeration the mutable run is also repeated on a second context constructed the same way and must agree with the clone's run; plus scaling families (chains and tuples of n elements with an assignment at every position, n in 1..20 and up to 129 / 1..40 and up to 400); oracle: reference interpreter in immutable / mutable / no-storage mode, direct differential between the two forms for assignment-free programs, context observation before/after. States = (program, context) pairs, transitions = evaluations. Non-trivial = assignment-free programs (differential) and programs ending in ContextNotMutable; each pair is enumerated once"),
         nontrivial_set: "counter:nontrivial-distinct",
         exhaustive: true,
         bound_completed: format!("programs of {n} operator nodes"),
@@ -557,6 +669,9 @@ pub fn replay(case: &J) -> i32 {
         only.evaluations = 1;
         only.violations.extend(all.violations.into_iter().filter(|v| v.input["source"] == case["input"]["source"]));
         return super::replay_verdict(ID, &only);
+    }
+    if case["kind"].as_str() == Some("configured-context") {
+        return super::replay_verdict(ID, &configured_contexts());
     }
     let ci = input["context"].as_u64().unwrap_or(0) as usize;
     let counts = progs::counts(3);
